@@ -115,6 +115,9 @@ type run struct {
 	epochLo      int64 // first sequence appended since the cursor last moved backwards
 	unsynced     bool  // a reset happened and neither a Put nor NewQueue since
 	idxMaybeDead bool  // GC ran in that state: the index page the queue holds may be gone
+
+	pageSizes []int64 // page size argument of the successive NewQueue calls of this case (nil: always 0)
+	opens     int
 }
 
 func (r *run) cleanup() {
@@ -139,7 +142,16 @@ func (r *run) curStr() string {
 
 func (r *run) open(dir string) error {
 	r.ctl.root = dir
-	q, err := queue.NewQueue(dir, 0)
+	// the configured data page size (storage option wal.page-size, [128MB,1GB]): NewQueue maps the
+	// data pages with it, everything else uses the constant. Cases that set pageSizes open / reopen /
+	// restart with a DIFFERENT size each time; the model has no such parameter (nothing may depend on it).
+	ps := int64(0)
+	if len(r.pageSizes) > 0 {
+		ps = r.pageSizes[r.opens%len(r.pageSizes)]
+		r.opens++
+		r.c.Branch(fmt.Sprintf("newqueue-pagesize-%dMB", ps>>20))
+	}
+	q, err := queue.NewQueue(dir, ps)
 	if err != nil {
 		return err
 	}
@@ -955,6 +967,8 @@ func (a area) Run(c *core.Ctx) error {
 				r.stressCase(rng, 8, 1500)
 			case i == 14:
 				r.mwWitnessCase(rng)
+			case i == 15:
+				r.posCase(rng, true) // index page position: the witness family of index_switch_exact
 			case c.Tier == "thorough" && i >= 8 && i <= 12:
 				// one below / one above the index page boundary, the second boundary, GC overlap with pending messages
 				switch i {
@@ -984,6 +998,8 @@ func (a area) Run(c *core.Ctx) error {
 					r.partCase(rng) // replica/partition.go glue over a real FanOutQueue (partition.go)
 				case i%10 == 4:
 					r.mwCase(rng) // the writers of the meta page as scheduled goroutines (metawriters.go)
+				case i%20 == 3:
+					r.posCase(rng, false) // index page position under resets across index pages (indexpos.go)
 				case k < 48:
 					r.seqCase(rng)
 				case k < 60:
@@ -1132,6 +1148,8 @@ func (r *run) seqCase(rng *rand.Rand) {
 // a message of exactly one page, one byte more than a page, crash images around a roll-over.
 func (r *run) bigCase(rng *rand.Rand) {
 	r.c.Branch("case-rollover")
+	// wal.page-size configured above the default and changed at every restart (raised, removed, lowered)
+	r.pageSizes = []int64{256 << 20, 0, 192 << 20, 128 << 20, 512 << 20}
 	r.opNew()
 	a := 40*1024*1024 + rng.Intn(20*1024*1024)
 	r.opPut(gen(rng.Intn(1000), a))
